@@ -1,5 +1,5 @@
 #!/bin/bash
-# offline build of the Lean project (models, proofs, drivers)
-set -e
+# offline build of the Lean project (models, proofs, property theorems, model drivers); ~12 min from clean on 16 cores
+set -e -o pipefail
 cd "$(dirname "$0")/lean"
 lake build 2>&1 | tail -5
